@@ -852,8 +852,11 @@ impl<A: Zeroize + NewBytes + ResizableBytes + Lockable<A>> NewLockedFromSlice<A>
     fn from_slice_into_locked(
         src: &[u8],
     ) -> Result<Protected<Self, traits::ReadWrite, traits::Locked>, crate::error::Error> {
-        let mut res = Self::new_bytes().mlock()?;
+        // size the region first, so that a refused lock surfaces as an error
+        // here instead of a panic in the locked resize
+        let mut res = Self::new_bytes();
         res.resize(src.len(), 0);
+        let mut res = res.mlock()?;
         res.as_mut_slice().copy_from_slice(src);
         Ok(res)
     }
